@@ -54,7 +54,9 @@ func (tl *TaskLane) startQueue(index int) {
 			return
 		case task = <-tl.bufferedQueueList[index]:
 		}
+		verifPoint("Q1", index, task)
 		tl.blockingTaskCnt.Add(1)
+		verifPoint("Q2", index, task)
 		select {
 		case <-tl.ctx.Done():
 			return
@@ -70,6 +72,7 @@ func (tl *TaskLane) startQueue(index int) {
 				}
 			}
 		}
+		verifPoint("Q3", index, task)
 		tl.blockingTaskCnt.Add(^uint32(0)) // decrement blockingTaskCnt
 	}
 }
@@ -94,6 +97,7 @@ func (tl *TaskLane) startWorker(index int) {
 				}
 			}
 		}
+		verifPoint("W1", index, task)
 		func() {
 			defer func() {
 				if err := recover(); err != nil {
@@ -102,6 +106,7 @@ func (tl *TaskLane) startWorker(index int) {
 			}()
 			task.Start()
 		}()
+		verifPoint("W2", index, task)
 	}
 }
 
@@ -191,6 +196,7 @@ func (tl *TaskLane) ShortestQueueIndex() int {
 // context.Canceled or context.DeadlineExceeded if the context was Done.
 // tasklane.ErrTimeout if specified TaskQueue is full until timeout.
 func (tl *TaskLane) PushTask(task Task, index int) error {
+	verifPoint("P1", index, task)
 	select {
 	case <-tl.ctx.Done():
 		return tl.ctx.Err()
